@@ -68,6 +68,9 @@ def c08(tier):
             scheds += [{'short_at': j, 'short_n': 1} for j in js]
             scheds += [{'interrupt_at': j} for j in js[::max(1, len(js) // 10)]]
             scheds += [{'zero_at': j} for j in js[::max(1, len(js) // 6)]] + [{'fail_at': j} for j in js[::max(1, len(js) // 6)]]
+            # a sink may also fail (or take nothing) ONCE and serve later calls normally: the serialization still has to stop there and report it, at EVERY call
+            js1 = js if len(js) <= 90 else sorted(rng.sample(js, 90))
+            scheds += [{'fail_once_at': j} for j in js1] + [{'zero_once_at': j} for j in js1[::2]]
             scheds += [{'limit': 2, 'interrupt_at': ncalls // 2}, {'limit': 3, 'short_at': ncalls // 3, 'short_n': 1}]
             for sc in scheds:
                 j = len(srecs)
